@@ -504,6 +504,8 @@ namespace
                         o["rk"] = "global";
                     if (x->refersToEnclosingVariableOrCapture())
                         o["cap"] = true;
+                    if (var->getTLSKind() != VarDecl::TLS_None)
+                        o["tls"] = true;
                     o["vt"] = typeId(var->getType());
                     if (var->getType()->isReferenceType())
                         o["isref"] = true;
@@ -762,6 +764,8 @@ namespace
                 o["const"] = true;
             if (v->isStaticLocal())
                 o["static"] = true;
+            if (v->getTLSKind() != VarDecl::TLS_None)
+                o["tls"] = true;
             if (v->hasInit())
                 o["init"] = emitExpr(v->getInit());
             if (auto* dd = dyn_cast<DecompositionDecl>(v))
